@@ -15,3 +15,13 @@ package filepathext
 //@ func isSpecialDir
 //@   site strings.Contains#1 requires arg0 == dir && arg1 == knownAbsDirs[$i]                                  [C08]
 //@   nosite strings.HasPrefix                                                                                  [C08]
+
+// ---- C19: ".yml" / "dir/.yml": a path whose LAST ELEMENT consists of an extension only
+//@ ghost var baseOf string scratch
+//@ ghost var extOf string scratch
+//@ func IsExtOnly
+//@   site filepath.Base#1 requires arg0 == path                                                                [C19]
+//@   site filepath.Base#1 ghost baseOf := result
+//@   site filepath.Ext#1 requires arg0 == path                                                                 [C19]
+//@   site filepath.Ext#1 ghost extOf := result
+//@   ensures result == (baseOf == extOf)                                                                       [C19]
